@@ -251,3 +251,176 @@ Section Loop.
         unfold efacts, elem_good. rewrite E1, E2, E3, E4. cbn [max_len is_spsk is_sticket negb andb]. repeat split; assumption.
   Qed.
 End Loop.
+
+(* ---- extension types pairwise distinct ---- *)
+Definition nong (ss : list sext) : list sext := filter (fun s => negb (is_sgrease s)) ss.
+Definition ngrease (ss : list sext) : nat := length (filter is_sgrease ss).
+
+Lemma gids_no_grease x1 x2 : forall ss seen, ngrease ss = O -> gids x1 x2 seen ss = map sid (nong ss).
+Proof.
+  induction ss as [|s r IH]; intros seen H; [reflexivity|]. unfold ngrease, nong in *. cbn [filter gids] in *.
+  destruct (is_sgrease s); cbn [length negb map] in *; [discriminate|]. rewrite (IH seen H). reflexivity.
+Qed.
+
+Lemma gids_in x1 x2 : forall ss seen y, In y (gids x1 x2 seen ss) -> In y (map sid (nong ss)) \/ y = x1 \/ y = x2.
+Proof.
+  induction ss as [|s r IH]; intros seen y H; [destruct H|]. unfold nong in *. cbn [gids filter] in *.
+  destruct (is_sgrease s); cbn [negb map In] in *.
+  - destruct H as [<-|H]; [destruct seen; tauto|]. apply IH in H. tauto.
+  - destruct H as [<-|H]; [tauto|]. apply IH in H. tauto.
+Qed.
+
+Lemma gids_in_S x1 x2 : forall ss seen y, In y (gids x1 x2 (S seen) ss) -> In y (map sid (nong ss)) \/ y = x2.
+Proof.
+  induction ss as [|s r IH]; intros seen y H; [destruct H|]. unfold nong in *. cbn [gids filter] in *.
+  destruct (is_sgrease s); cbn [negb map In] in *.
+  - destruct H as [<-|H]; [tauto|]. apply IH in H. tauto.
+  - destruct H as [<-|H]; [tauto|]. apply IH in H. tauto.
+Qed.
+
+Lemma gids_nodup x1 x2 : Grease.is_grease x1 = true -> Grease.is_grease x2 = true -> x1 <> x2 ->
+  forall ss seen, NoDup (map sid (nong ss)) -> (forall s, In s (nong ss) -> Grease.is_grease (sid s) = false) ->
+  (seen + ngrease ss <= 2)%nat -> NoDup (gids x1 x2 seen ss).
+Proof.
+  intros G1 G2 Hne. induction ss as [|s r IH]; intros seen Hnd Hng Hc; [constructor|].
+  unfold nong, ngrease in *. cbn [gids filter] in *. destruct (is_sgrease s) eqn:Es; cbn [negb map length] in *.
+  - assert (Hng' : forall y, In y (map sid (filter (fun s => negb (is_sgrease s)) r)) -> Grease.is_grease y = false).
+    { intros y Hy. apply in_map_iff in Hy. destruct Hy as (t & <- & Ht). apply Hng. exact Ht. }
+    constructor; [|apply IH; [exact Hnd | exact Hng | lia]].
+    destruct seen as [|[|seen]]; [| |lia].
+    + intros Hin. apply gids_in_S in Hin. destruct Hin as [Hin|Hin]; [|congruence]. apply Hng' in Hin. congruence.
+    + assert (H0 : ngrease r = O) by (unfold ngrease; lia). rewrite (gids_no_grease x1 x2 r 2 H0). unfold nong.
+      intros Hin. apply Hng' in Hin. congruence.
+  - inversion Hnd as [|? ? Hn Hnd']; subst. constructor; [|apply IH; [exact Hnd' | intros t Ht; apply Hng; right; exact Ht | lia]].
+    intros Hin. apply gids_in in Hin. pose proof (Hng s (or_introl eq_refl)) as Hs.
+    destruct Hin as [Hin|[Hin|Hin]]; [exact (Hn Hin) | congruence | congruence].
+Qed.
+
+(* ---- pre_shared_key last ---- *)
+Lemma psk_lastb_ext l : forall l', map (fun a => a =? ID_PSK) l = map (fun a => a =? ID_PSK) l' -> psk_lastb l = psk_lastb l'.
+Proof.
+  induction l as [|x r IH]; intros [|x' r'] H; try discriminate; [reflexivity|].
+  cbn [map] in H. inversion H as [[Hx Hr]]. cbn [psk_lastb]. destruct r, r'; try discriminate; [reflexivity|].
+  unfold ID_PSK in Hx. rewrite Hx. f_equal. apply IH. exact Hr.
+Qed.
+
+Lemma typed_psk_id e : typed_ext e = true -> (ext_id e =? ID_PSK) = is_psk_ext e.
+Proof.
+  destruct e; cbn [typed_ext ext_id is_psk_ext]; intros H; try reflexivity.
+  - cbn [tracked_ids existsb] in H. apply negb_true_iff in H. rewrite !orb_false_iff in H. tauto.
+  - cbn [tracked_ids existsb] in H. apply negb_true_iff in H. rewrite !orb_false_iff in H. tauto.
+  - destruct old; reflexivity.
+Qed.
+
+(* ---- the totals fit: a bound that needs no bytes ---- *)
+Definition pad_own (e : ext) : N := if is_padding e then ext_len e else 0.
+
+Lemma nonpad_split padto es : nonpad_len (map (ChMarshal.to_aext padto) es) + sum_map pad_own es = sum_map ext_len es.
+Proof.
+  induction es as [|e es IH]; [reflexivity|]. cbn [map nonpad_len fold_right sum_map]. fold (nonpad_len (map (ChMarshal.to_aext padto) es)).
+  unfold pad_own at 1. destruct (is_padding e) eqn:Hp.
+  - destruct e; try discriminate. cbn [ChMarshal.to_aext a_is_pad]. lia.
+  - rewrite (to_aext_nonpad padto e Hp). cbn [a_is_pad a_len]. lia.
+Qed.
+
+Lemma pad_update_bound pol st u : (forall n, pol <> PolAlways n) -> pad_len (pad_update pol st u) <= 516 + pad_len st.
+Proof.
+  intros Hp. destruct pol; cbn [pad_update]; [lia| |exfalso; eapply Hp; reflexivity].
+  unfold boring_padding_style. destruct ((255 <? u) && (u <? 512)) eqn:E; unfold pad_len; cbn [p_will p_len]; [|lia].
+  destruct (5 <=? 512 - u); lia.
+Qed.
+
+Lemma fits_bound h es : wf_specb h es = true -> existsb pad_other es = false ->
+  len (h_suites h) * 2 <= 65535 -> len (h_comp h) <= 255 -> sum_map ext_len es + 516 <= 65535 -> spec_fitsb 0%Z h es = true.
+Proof.
+  intros Hwf Hpo Hsu Hcomp Hsum. destruct (prepare_of_wf 0%Z h es Hwf) as (p & Hp). unfold spec_fitsb. rewrite Hp.
+  destruct (wf_spec_parts h es Hwf) as (_ & _ & Hsid & _ & _ & Hcne & _ & _ & _).
+  unfold marshal_prepare in Hp. destruct (find_padding (map (ChMarshal.to_aext 0%Z) es) None) as [pe|c0|c0] eqn:Ef; cbn [bind] in Hp; try discriminate.
+  inversion Hp; subst p. unfold fits. cbn [pr_extensions_len].
+  pose proof (nonpad_split 0%Z es) as Hsplit.
+  assert (Hext : match pe with
+                 | Some (pol, st) => nonpad_len (map (ChMarshal.to_aext 0%Z) es) + pad_len (pad_update pol st (unpadded_len h (map (ChMarshal.to_aext 0%Z) es)))
+                 | None => nonpad_len (map (ChMarshal.to_aext 0%Z) es) end <= 65535).
+  { destruct pe as [[pol st]|]; [|lia].
+    pose proof (find_padding_none _ _ Ef) as (pre & post & Heq & _ & _).
+    assert (Hin : In (APad pol st) (map (ChMarshal.to_aext 0%Z) es)) by (rewrite Heq; apply in_or_app; right; left; reflexivity).
+    apply in_map_iff in Hin. destruct Hin as (e & He & Hine). destruct e; try discriminate. cbn [ChMarshal.to_aext] in He. inversion He; subst pol st.
+    assert (Hno : pad_other (EPadding padlen willpad policy) = false).
+    { rewrite <- not_true_iff_false. intros Ht. rewrite <- not_true_iff_false in Hpo. apply Hpo. apply existsb_exists. eexists; split; [exact Hine|exact Ht]. }
+    assert (Hpol : forall n, (match policy with PadNone => PolNone | PadBoring => PolBoring | PadOther => PolAlways 0%Z end) <> PolAlways n).
+    { destruct policy; try discriminate. }
+    pose proof (pad_update_bound _ {| p_len := padlen; p_will := willpad |} (unpadded_len h (map (ChMarshal.to_aext 0%Z) es)) Hpol) as Hb.
+    pose proof (sum_map_ge pad_own es _ Hine) as Hown. unfold pad_own in Hown at 1. cbn [is_padding ext_len] in Hown.
+    unfold pad_len in Hb at 2. cbn [p_will p_len] in Hb. lia. }
+  rewrite !andb_true_iff. repeat split; try lia.
+Qed.
+
+(* ------------------------------------------------------------------ *)
+(* MAIN: what ApplyPreset leaves for a preset_ok spec is inside the precondition of C02, typed, and fits *)
+Theorem preset_ok_output sp c fr snimax omit h es :
+  preset_ok sp snimax omit = true -> cfg_in_class c snimax omit -> apply_preset sp c fr = Ok (h, es) ->
+  wf_specb h es = true /\ spec_fitsb 0%Z h es = true /\ forallb typed_ext es = true /\ existsb pad_other es = false.
+Proof.
+  intros Hok [Hsni Homit] H. unfold apply_preset in H.
+  destruct (set_tls_vers sp) as [[mn mx]| |] eqn:Ev; cbn [bind fst snd] in H; try discriminate.
+  destruct (hello_vers mn mx) as [v| |] eqn:Eh; cbn [bind] in H; try discriminate.
+  destruct (blen (f_random fr) =? 32) eqn:Er; cbn [negb] in H; [|discriminate].
+  destruct (Grease.grease_seed (f_grease fr)) as [sd| |] eqn:Eg; cbn [bind] in H; try discriminate.
+  destruct (Grease.map_res (Grease.regrease sd Grease.ssl_grease_cipher) (sp_suites sp)) as [su| |] eqn:Es; cbn [bind] in H; try discriminate.
+  destruct (blen (f_sid fr) =? 32) eqn:Ei; cbn [negb] in H; [|discriminate].
+  destruct (preset_exts sd c 0 (f_keys fr) (f_ech fr) (sp_exts sp)) as [es0| |] eqn:Ee; cbn [bind] in H; try discriminate.
+  destruct (sync_session_exts es0) as [u| |]; cbn [bind] in H; try discriminate.
+  inversion H; subst h es; clear H.
+  unfold preset_ok in Hok. rewrite !andb_true_iff in Hok.
+  destruct Hok as [[[[[[[[[P1 P2] P3] P4] P5] P6] P7] P8] P9] P10].
+  destruct (GreaseP.grease_seed_shape _ _ Eg) as (c0 & g0 & e1 & e2 & v0 & -> & Hne).
+  assert (Hx1 : Grease.boring_grease [c0; g0; e1; e2; v0] Grease.ssl_grease_extension1 = Ok (Grease.grease_word e1)) by reflexivity.
+  assert (Hx2 : Grease.boring_grease [c0; g0; e1; e2; v0] Grease.ssl_grease_extension2 = Ok (Grease.grease_word e2)) by reflexivity.
+  destruct (preset_exts_ok _ c snimax omit _ _ Hx1 Hx2 Hsni Homit _ _ _ _ _ Ee P4) as (L1 & L2 & L3 & L4 & L5).
+  destruct (regrease_list _ _ _ _ Es) as [Hsl Hsb].
+  assert (Hgood : forall e, In e es0 -> wf_ext e = true /\ rfc_ok e = true /\ typed_ext e = true /\ pad_other e = false).
+  { intros e He. rewrite forallb_forall in L1. specialize (L1 e He). unfold elem_good in L1. rewrite !andb_true_iff in L1.
+    destruct L1 as [[[A B] C] D]. apply negb_true_iff in D. auto. }
+  assert (Hpo : existsb pad_other es0 = false).
+  { rewrite <- not_true_iff_false. intros Ht. apply existsb_exists in Ht. destruct Ht as (e & He & Hp). destruct (Hgood e He) as (_ & _ & _ & D). congruence. }
+  assert (Hty : forallb typed_ext es0 = true) by (apply forallb_forall; intros e He; apply (Hgood e He)).
+  assert (Hwf : wf_specb {| h_vers := v; h_random := f_random fr; h_sid := f_sid fr; h_suites := su; h_comp := [0] |} es0 = true).
+  { unfold wf_specb, hdr_wfb. cbn [h_vers h_random h_sid h_suites h_comp nonempty].
+    rewrite !andb_true_iff. repeat split.
+    - unfold hello_vers in Eh. destruct (mx <? mn); [discriminate|]. inversion Eh. unfold VersionTLS12. destruct (771 <? mx) eqn:E; lia.
+    - exact Er.
+    - apply N.eqb_eq in Ei. unfold len. fold (blen (f_sid fr)). lia.
+    - rewrite (nonempty_length _ _ Hsl). exact P1.
+    - exact (Hsb P2).
+    - apply forallb_forall. intros e He. destruct (Hgood e He) as (A & B & _). rewrite A, B. reflexivity.
+    - rewrite L3. apply nodupb_spec. destruct (boring_facts _ _ _ Hx1) as (_ & _ & G1). destruct (boring_facts _ _ _ Hx2) as (_ & _ & G2).
+      apply (gids_nodup _ _ G1 G2 Hne).
+      + apply nodupb_spec. exact P6.
+      + intros s Hs. unfold nong in Hs. apply filter_In in Hs. destruct Hs as [Hs Hng]. rewrite forallb_forall in P7. specialize (P7 s Hs).
+        destruct (is_sgrease s); [discriminate|]. cbn [orb] in P7. apply negb_true_iff in P7. exact P7.
+      + unfold ngrease. lia.
+    - rewrite (psk_lastb_ext (map ext_id es0) (map pid (sp_exts sp))); [exact P8|].
+      rewrite !map_map.
+      transitivity (map is_psk_ext es0).
+      + apply map_ext_in. intros e He. apply typed_psk_id. apply (Hgood e He).
+      + rewrite L4. apply map_ext. intros s. unfold pid. destruct (is_spsk s); reflexivity. }
+  split; [exact Hwf|]. split; [|split; [exact Hty | exact Hpo]].
+  apply fits_bound; [exact Hwf | exact Hpo | | | ].
+  - cbn [h_suites]. unfold len. fold (blen su). rewrite (blen_length _ _ Hsl). lia.
+  - cbn [h_comp]. unfold len. cbn. lia.
+  - lia.
+Qed.
+
+(* ... hence the hello can be marshalled and is a valid ClientHello: no premise on the model's output left *)
+Theorem preset_ok_builds sp c fr snimax omit h es :
+  preset_ok sp snimax omit = true -> cfg_in_class c snimax omit -> apply_preset sp c fr = Ok (h, es) ->
+  exists raw, build sp c fr = Ok raw /\ marshal_hello bbs512 0%Z h es = Ok raw /\ valid_ch raw.
+Proof.
+  intros Hok Hc Ha. destruct (preset_ok_output sp c fr snimax omit h es Hok Hc Ha) as (Hwf & Hfit & _ & Hpo).
+  destruct (encodes_when_fits bbs512 0%Z h es Hwf Hfit) as (raw & Hm & Hv). exists raw. split; [|split; [exact Hm|exact Hv]].
+  unfold build. rewrite Ha. cbn [bind fst snd]. rewrite Hpo.
+  unfold marshal_hello in Hm. unfold spec_fitsb in Hfit.
+  destruct (marshal_prepare h (map (ChMarshal.to_aext 0%Z) es)) as [p| |]; try discriminate. cbn [bind] in Hm. rewrite Hfit in Hm. cbn [negb] in Hm.
+  rewrite <- Hm. f_equal. clear - Hpo. induction es as [|e es IH]; [reflexivity|]. cbn [existsb map] in *. apply orb_false_iff in Hpo. destruct Hpo as [He Hes].
+  rewrite (IH Hes). f_equal. destruct e; try reflexivity. destruct policy; try reflexivity. discriminate.
+Qed.
